@@ -89,10 +89,13 @@ func verifRaceID(k int) robust.Id { return robust.Id{Id: uint64(1000 + k)} }
 // the FSM goroutine: applies entries one after the other
 func verifRaceApply(i *IRCServer, rng *rand.Rand, stop *int32, cnt *verifRaceCounters) {
 	next := uint64(5000)
+	gens := make([]int, verifRaceSessions)     // incarnation of session k: a fresh remote address per incarnation
+	nicks := make([]string, verifRaceSessions) // current nickname of session k (as far as the stream knows)
 	apply := func(k int, line string) {
 		next++
 		msg := &robust.Message{Id: robust.Id{Id: next}, Session: verifRaceID(k), Type: robust.IRCFromClient,
-			Data: line, ClientMessageId: next, UnixNano: time.Now().UnixNano()}
+			Data: line, ClientMessageId: next, UnixNano: time.Now().UnixNano(),
+			RemoteAddr: fmt.Sprintf("10.%d.%d.%d", gens[k]>>8&255, gens[k]&255, k)}
 		if err := i.UpdateLastClientMessageID(msg); err != nil {
 			return
 		}
@@ -101,21 +104,43 @@ func verifRaceApply(i *IRCServer, rng *rand.Rand, stop *int32, cnt *verifRaceCou
 		i.MaybeDeleteSession(msg.Session)
 		atomic.AddInt64(cnt.get("apply:ProcessMessage"), 1)
 	}
+	gen := 0
+	// what statemachine.go does for a robust.Config entry
+	setConfig := func() {
+		cfg := config.DefaultConfig
+		cfg.Banned = map[string]string{}
+		cfg.IRC.Operators = []config.IRCOp{{Name: "verifop", Password: "verifpw"}}
+		cfg.PostMessageCooloff = config.Duration(time.Duration(1+rng.Intn(3)) * time.Millisecond)
+		cfg.SessionExpiration = config.Duration(time.Hour)
+		cfg.MaxSessions = uint64(100 + rng.Intn(5))
+		func() {
+			i.ConfigMu.Lock()
+			defer i.ConfigMu.Unlock()
+			i.Config = cfg
+			i.Config.Revision = uint64(gen)
+		}()
+		atomic.AddInt64(cnt.get("apply:Config"), 1)
+	}
+	setConfig()
 	create := func(k int) {
 		next++
+		gens[k]++
 		i.CreateSession(verifRaceID(k), fmt.Sprintf("auth-%d-0123456789", k), time.Now())
 		atomic.AddInt64(cnt.get("apply:CreateSession"), 1)
-		apply(k, fmt.Sprintf("NICK n%d", k))
+		nicks[k] = fmt.Sprintf("n%d", k)
+		apply(k, "NICK "+nicks[k])
 		apply(k, fmt.Sprintf("USER u%d 0 * :Real %d", k, k))
+		if k == 0 {
+			apply(k, "OPER verifop verifpw") // session 0 is the IRC operator
+		}
 	}
 	for k := 0; k < verifRaceSessions; k++ {
 		create(k)
 	}
 	chans := []string{"#a", "#b", "#c"}
-	gen := 0
 	for atomic.LoadInt32(stop) == 0 {
 		k := rng.Intn(verifRaceSessions)
-		switch rng.Intn(12) {
+		switch rng.Intn(14) {
 		case 0, 1:
 			apply(k, "JOIN "+chans[rng.Intn(len(chans))])
 		case 2:
@@ -124,7 +149,8 @@ func verifRaceApply(i *IRCServer, rng *rand.Rand, stop *int32, cnt *verifRaceCou
 			apply(k, "PRIVMSG "+chans[rng.Intn(len(chans))]+" :hello")
 		case 5:
 			gen++
-			apply(k, fmt.Sprintf("NICK n%dx%d", k, gen%7))
+			nicks[k] = fmt.Sprintf("n%dx%d", k, gen%7)
+			apply(k, "NICK "+nicks[k])
 		case 6:
 			apply(k, "TOPIC "+chans[rng.Intn(len(chans))]+" :topic")
 		case 7:
@@ -132,25 +158,22 @@ func verifRaceApply(i *IRCServer, rng *rand.Rand, stop *int32, cnt *verifRaceCou
 		case 8:
 			apply(k, "PING x")
 		case 9:
-			// what statemachine.go does for a robust.Config entry
-			cfg := config.DefaultConfig
-			cfg.Banned = map[string]string{}
-			cfg.PostMessageCooloff = config.Duration(time.Duration(1+rng.Intn(3)) * time.Millisecond)
-			cfg.SessionExpiration = config.Duration(time.Hour)
-			cfg.MaxSessions = uint64(100 + rng.Intn(5))
-			func() {
-				i.ConfigMu.Lock()
-				defer i.ConfigMu.Unlock()
-				i.Config = cfg
-				i.Config.Revision = uint64(gen)
-			}()
-			atomic.AddInt64(cnt.get("apply:Config"), 1)
+			setConfig()
 		case 10:
 			// QUIT and re-create (DeleteSession + CreateSession entries)
 			apply(k, "QUIT :bye")
 			create(k)
 		case 11:
 			apply(k, "WHOIS n"+strconv.Itoa(rng.Intn(verifRaceSessions)))
+		case 12, 13:
+			// the operator GLINEs a user whose remote address is known: cmdGline writes Config.Banned in
+			// place under ConfigMu.Lock and kills the session, which then reconnects from a new address
+			if k == 0 {
+				k = 1
+			}
+			apply(0, "GLINE "+nicks[k]+" :verif gline")
+			atomic.AddInt64(cnt.get("apply:GLINE"), 1)
+			create(k)
 		}
 	}
 }
